@@ -707,6 +707,213 @@ def refcount_run(case, ctx):
                      "repetitions (expected 0)" % (case["op"], idx, b - a, c - b))
 
 
+# ----------------------------------------------------------------------------- generated reference-neutrality grid
+def _mortal(x):
+    return sys.getrefcount(x) < 10 ** 9          # (immortal objects - small ints, None, interned strings - hide leaks)
+
+
+def _parts(v, acc, depth=0):
+    """The value and every object nested in it (tuple / list / set / dict members), mortal ones only."""
+    if _mortal(v):
+        acc.append(v)
+    if depth < 3:
+        if isinstance(v, (tuple, list, set, frozenset)):
+            for i in v:
+                _parts(i, acc, depth + 1)
+        elif isinstance(v, dict):
+            for a, b in v.items():
+                _parts(a, acc, depth + 1)
+                _parts(b, acc, depth + 1)
+    return acc
+
+
+def refgrid_values():
+    """Lattice values plus containers whose items are MORTAL objects that validation replaces (conversion inside a
+    Tuple / List / Dict / Set is where a reference to the original item is taken and must be given back)."""
+    from vf import lattice as L, values as Vv
+    out = [(repr(e), (lambda e=e: Vv.dec(e))) for e, _ in L.all_values()]
+    extra = {
+        "(Idx(1), 2)": lambda: (L.Idx(1), 2), "(MyInt(1), MyStr('a'))": lambda: (L.MyInt(1), L.MyStr("a")),
+        "(2**70, 'abc'*9)": lambda: (2 ** 70, "abc" * 9), "(MyFloat(0.5), Idx(2))": lambda: (L.MyFloat(0.5), L.Idx(2)),
+        "(Flt(0.5), 1000003)": lambda: (L.Flt(0.5), 1000003), "(1000003, (Flt(0.5), True))": lambda: (1000003, (L.Flt(0.5), True)),
+        "(V(), 1000003)": lambda: (V(), 1000003), "(1000003, V())": lambda: (1000003, V()), "(Idx(1), V())": lambda: (L.Idx(1), V()),
+        "[Idx(1), 1000003]": lambda: [L.Idx(1), 1000003], "[MyInt(3)]": lambda: [L.MyInt(3)], "[1000003, V()]": lambda: [1000003, V()],
+        "[Flt(0.5)]": lambda: [L.Flt(0.5)], "{'k'*9: Idx(1)}": lambda: {"k" * 9: L.Idx(1)}, "{1000003: Flt(0.5)}": lambda: {1000003: L.Flt(0.5)},
+        "{MyStr: 1000003}": lambda: {L.MyStr("q" * 7): 1000003}, "{MyInt(1000003)}": lambda: {L.MyInt(1000003)},
+        "{'s'*9}": lambda: {"s" * 9}, "(1000003, 1000003)": lambda: (1000003, 1000007), "('yes'*1, 5)": lambda: ("ye" + "s", 5),
+        "1000003.5": lambda: 1000003.5, "'ye'": lambda: "".join(["y", "e"]), "Idx(1)": lambda: L.Idx(1), "Flt(0.5)": lambda: L.Flt(0.5),
+        "Cpx(1j)": lambda: L.Cpx(1j), "MyInt(2)": lambda: L.MyInt(2), "2**70": lambda: 2 ** 70, "V()": lambda: V(),
+    }
+    out += sorted(extra.items())
+    return out
+
+
+def refgrid_gen(tier, shard, nshards):
+    from vf import lattice as L
+    specs = [sp for sp in L.grid() if sp != ["None"]]
+    for i, sp in enumerate(specs):
+        if i % nshards == shard:
+            yield {"spec": sp}
+
+
+def refgrid_run(case, ctx):
+    """For every value: assign it to a FRESH object (whatever the outcome), drop the object; after 1, 11 and 41
+    repetitions the reference counts of the value and of everything nested in it are the same."""
+    from vf import lattice as L
+    spec = case["spec"]
+    cls = type("RG", (HasTraits,), {"x": L.build(spec)})
+    vals = refgrid_values() if "value" not in case else [v for v in refgrid_values() if v[0] == case["value"]]
+    ctx.evaluations -= 1
+    for vname, mk in vals:
+        try:
+            v = mk()
+        except Exception:
+            continue
+        if L.hazardous(spec, v):
+            continue
+        tracked = _parts(v, [])
+        if not tracked:
+            continue
+        ctx.add_evals(1)
+
+        def op():
+            o = cls()
+            try:
+                o.x = v
+            except Exception:
+                pass
+            try:
+                o.x
+            except Exception:
+                pass
+            del o
+
+        payloads = [t.v for t in tracked if isinstance(getattr(t, "v", None), BaseException)]
+
+        def rep(n, collect=False):
+            for _ in range(n):
+                op()
+                for e in payloads:
+                    e.__traceback__ = None       # (re-raising one exception instance makes ITS traceback grow: Python, not traits)
+            if collect:
+                gc.collect()                     # (TraitError <-> traceback <-> frame cycles keep items until collected)
+            return [sys.getrefcount(t) for t in tracked]
+        with warnings.catch_warnings():
+            warnings.simplefilter("ignore")
+            try:
+                r0 = rep(1)
+                r1 = rep(10)
+                r2 = rep(30)
+                if r0 != r1 or r1 != r2:
+                    # confirm with cyclic garbage out of the way
+                    r0 = rep(1, True)
+                    r1 = rep(10, True)
+                    r2 = rep(30, True)
+            except RecursionError:
+                continue
+        if len(tracked) > 1:
+            ctx.nontrivial(key=[spec, vname], sample={"spec": spec, "value": vname})
+        for idx, (a, b, c) in enumerate(zip(r0, r1, r2)):
+            if b - a or c - b:
+                kind = "over-release" if (b - a < 0 or c - b < 0) else "leak"
+                ctx.report("refcount/" + kind, "spec=%s value=%s: the reference count of tracked part #%d (%r) changed by %+d after 10 "
+                           "and %+d after 30 more assignments to fresh objects (expected 0)"
+                           % (L.spec_id(spec), vname, idx, type(tracked[idx]).__name__, b - a, c - b),
+                           {"spec": spec, "value": vname})
+                break
+
+
+# ----------------------------------------------------------------------------- failing defaults under every warnings filter
+class _Boom(Exception):
+    pass
+
+
+DF_EXC = {"AttributeError": AttributeError, "TraitError": TraitError, "KeyError": KeyError, "Boom": _Boom}
+DF_FILTERS = ["default", "error", "ignore", "always"]
+DF_KINDS = ["method", "factory", "property-getter", "delegate-default"]
+DF_ROUTES = ["getattr", "trait_get", "setattr-reads-old", "hasattr"]
+
+
+def deffault_gen(tier, shard, nshards):
+    i = 0
+    for kind in DF_KINDS:
+        for exc in DF_EXC:
+            for flt in DF_FILTERS:
+                for route in DF_ROUTES:
+                    if i % nshards == shard:
+                        yield {"kind": kind, "exc": exc, "filter": flt, "route": route}
+                    i += 1
+
+
+def deffault_run(case, ctx):
+    """A default-value callback raises the SAME exception instance every time; whatever the warnings filter turns that
+    into, the instance's reference count does not drift and what is raised stays a live object."""
+    E = DF_EXC[case["exc"]]
+    inst = E("the default fails")
+    kind = case["kind"]
+
+    def boom(*a):
+        raise inst
+    if kind == "method":
+        cls = type("DF", (HasTraits,), {"x": Int, "_x_default": lambda self: boom()})
+    elif kind == "factory":
+        cls = type("DF", (HasTraits,), {"x": Any(factory=boom)})
+    elif kind == "property-getter":
+        cls = type("DF", (HasTraits,), {"x": Property(Int), "_get_x": lambda self: boom(), "_set_x": lambda self, v: None})
+    else:
+        pc = type("DP", (HasTraits,), {"x": Int, "_x_default": lambda self: boom()})
+        cls = type("DF", (HasTraits,), {"p": Instance(pc, ()), "x": DelegatesTo("p")})
+    ctx.nontrivial()
+
+    def op():
+        o = cls()
+        caught = None
+        with warnings.catch_warnings():
+            warnings.simplefilter(case["filter"])
+            try:
+                if case["route"] == "getattr":
+                    o.x
+                elif case["route"] == "trait_get":
+                    o.trait_get("x")
+                elif case["route"] == "hasattr":
+                    hasattr(o, "x")
+                else:
+                    o.x = 3
+            except BaseException as e:
+                caught = e
+        if caught is not None:
+            # what was raised (and its cause / context chain) must be live, well-formed objects
+            seen = 0
+            e = caught
+            while e is not None and seen < 5:
+                repr(e), str(e), type(e).__name__
+                e = e.__cause__ or e.__context__
+                seen += 1
+            caught.__traceback__ = None
+        del caught, o
+        e = stale_error()
+        if e is not None:
+            ctx.fail("stale-error/default", "%r left the error indicator set: %r" % (case, e))
+    op()
+    gc.collect()
+    inst.__traceback__ = None
+    r0 = sys.getrefcount(inst)
+    for _ in range(10):
+        op()
+    gc.collect()
+    inst.__traceback__ = None
+    r1 = sys.getrefcount(inst)
+    for _ in range(30):
+        op()
+    gc.collect()
+    inst.__traceback__ = None
+    r2 = sys.getrefcount(inst)
+    if r1 - r0 or r2 - r1:
+        kindb = "over-release" if (r1 - r0 < 0 or r2 - r1 < 0) else "leak"
+        ctx.fail("refcount/" + kindb, "%r: the reference count of the raised exception instance changed by %+d after 10 and %+d "
+                 "after 30 more repetitions (expected 0)" % (case, r1 - r0, r2 - r1))
+
+
 def stages(tier):
     out = [reuse_stage(m, s, d, tier) for m, s, d in REUSE]
     out.append({"name": "reentrant", "kind": "hyp", "strategy": reentrant_strategy, "run": reentrant_run, "flavour": "asan",
@@ -719,5 +926,11 @@ def stages(tier):
     out.append({"name": "protocol", "kind": "enum", "gen": protocol_gen, "run": protocol_run, "flavour": "asan", "shards": 8,
                 "exhaustive": True})
     out.append({"name": "refcount", "kind": "enum", "gen": refcount_gen, "run": refcount_run, "flavour": "plain", "shards": 4,
+                "exhaustive": True})
+    out.append({"name": "refgrid", "kind": "enum", "batch": True, "gen": refgrid_gen, "run": refgrid_run, "flavour": "plain",
+                "shards": 16, "exhaustive": True})
+    out.append({"name": "deffault", "kind": "enum", "gen": deffault_gen, "run": deffault_run, "flavour": "plain", "shards": 4,
+                "exhaustive": True})
+    out.append({"name": "deffault-asan", "kind": "enum", "gen": deffault_gen, "run": deffault_run, "flavour": "asan", "shards": 8,
                 "exhaustive": True})
     return out
